@@ -17,18 +17,36 @@ KF = set(x for x in os.environ.get("VERIF_KF", "").split(",") if x)
 Leaf = Union[None, bool, int, str]
 
 
+_LRU_SIDE: dict = {}
+
+
 def _real_lru_cache() -> None:
-    """The engine models functools.lru_cache as a cache that always misses (libimpl/functoolslib.py). A memoised function in
-    the code under analysis would then never show what it remembers, so that model is withdrawn: the real C wrapper runs."""
+    """The engine models functools.lru_cache as a cache that always misses (libimpl/functoolslib.py). A memoised function
+    in the library under analysis would then never show what it remembers. For wrappers around functions defined in the
+    `jsonpath` package that model is replaced by a remembering one (a dict keyed by the arguments; eviction is not
+    modelled, native replay decides); every other lru_cache keeps the engine's model."""
     import sys
 
     core = sys.modules.get("crosshair.core")
-    if core is None:
+    if core is None or os.environ.get("VERIF_KEEP_LRU_MODEL") == "1":
         return
     try:
         from functools import _lru_cache_wrapper
 
-        core._PATCH_REGISTRATIONS.pop(_lru_cache_wrapper.__call__, None)
+        def call_remembering(self, *a, **kw):  # noqa: ANN001, ANN202
+            if not isinstance(self, _lru_cache_wrapper):
+                raise TypeError
+            fn = self.__wrapped__
+            if not str(getattr(fn, "__module__", "")).startswith("jsonpath"):
+                return fn(*a, **kw)
+            key = (id(self), a, tuple(sorted(kw.items())))
+            if key in _LRU_SIDE:
+                return _LRU_SIDE[key]
+            res = fn(*a, **kw)
+            _LRU_SIDE[key] = res
+            return res
+
+        core._PATCH_REGISTRATIONS[_lru_cache_wrapper.__call__] = call_remembering
     except Exception:  # noqa: BLE001
         pass
 
